@@ -104,6 +104,13 @@ impl StructParser {
         let fields = item_enum
             .variants
             .iter()
+            // A variant marked #[serde(skip)] is never serialized or deserialized
+            .filter(|variant| {
+                !self
+                    .serde_parser
+                    .parse_field_serde_attrs(&variant.attrs)
+                    .skip
+            })
             .map(|variant| {
                 let variant_name = variant.ident.to_string();
 
